@@ -187,21 +187,31 @@ def clause3_selection(ctx, P):
             v = P.strip(cf, cf.insts[v].a[0])  # bool conversion of the int flag
         okv = False
         if isinstance(v, int) and v >= cf.nparams:
-            # ignore_case is a phi over {0, 1}; the 1 must come through type == cJSON_True of the caseInsensitive member
-            lv, _ = Q.leaves(P, cf, v, through_loads=False)
-            consts = {l[1] for l in lv if l[0] == "const"}
-            if consts == {0, 1}:
-                views = Q.path_views(ctx, P, cf)
-                okv = True
-                for pv in views:
-                    if c.block not in pv.blocks:
-                        continue
-                    val = P.const_int(pv.resolve(v, pv.blocks.index(c.block)))
-                    is_true = pv.has_atom(lambda a, p: a[0] == "cmp" and a[3] == ("const", TRUE) and
-                                          Q.is_field_load(a[2], "struct.cJSON", "type") is not None and
-                                          Q.is_call_to(Q.is_field_load(a[2], "struct.cJSON", "type"), "get_case_insensitive") and Q._poleq(a, p))
-                    if val is None or bool(val) != bool(is_true):
+            # on every path to the call the flag is either a constant that agrees with the test `caseInsensitive->type ==
+            # cJSON_True` taken on the path (if-form: a phi over {0, 1}), or the value of that very test (expression form:
+            # `flag = (m != NULL) && (m->type == cJSON_True)`)
+            def the_test(t):
+                fl = Q.is_field_load(t, "struct.cJSON", "type")
+                return fl is not None and Q.is_call_to(fl, "get_case_insensitive")
+            views = Q.path_views(ctx, P, cf)
+            okv = True
+            nv = 0
+            for pv in views:
+                if c.block not in pv.blocks:
+                    continue
+                nv += 1
+                r = pv.resolve(v, pv.blocks.index(c.block))
+                val = P.const_int(r)
+                is_true = pv.has_atom(lambda a, p: a[0] == "cmp" and a[3] == ("const", TRUE) and the_test(a[2]) and Q._poleq(a, p))
+                if val is not None:
+                    if bool(val) != bool(is_true):
                         okv = False
+                    continue
+                rr = P.strip(cf, r)
+                ins = cf.insts[rr] if isinstance(rr, int) and rr >= cf.nparams else None
+                if not (ins is not None and ins.op == "icmp" and ins.pred == "eq" and P.const_int(ins.a[1]) == TRUE and the_test(P.term(cf, ins.a[0]))):
+                    okv = False
+            okv = okv and nv > 0
         ctx.ob("C16.3 R-PAIR", cf, "ignore_case-iff-true", okv, "ignore_case is not set exactly when caseInsensitive has type cJSON_True")
     ctx.floor("C16.3 R-PAIR", 3)
 
